@@ -330,7 +330,7 @@ def run(ctx: Ctx) -> None:
     from . import c13 as _c13
     from ..report import run_shared as _run_shared
     t38 = "an inline member body ends where its braces balance, counted token by token (the skipper's counting loop; no raw-text scan)"
-    _run_shared(ctx, _c13.run, {"R13.2": ("R3.8", t38), "R13.8": ("R3.8", t38)})
+    _run_shared(ctx, _c13.run, {"R13.2": ("R3.8", t38), "R13.8": ("R3.8", t38), "R13.6": ("R3.8", t38 + "; a constructor's initializer list ends at the body, whatever the initializers look like")})
 
 
 _TF3: Dict[Tuple[int, str], object] = {}
